@@ -228,9 +228,43 @@ var addrProp = vp.Register(vp.Prop[Case]{
 	Kind: "c06.addr", Base: 20000,
 	Gen: func(t *rapid.T) Case {
 		nets := allNets()
-		switch rapid.IntRange(0, 9).Draw(t, "src") {
+		switch rapid.IntRange(0, 11).Draw(t, "src") {
 		case 0:
 			return Case{Addr: gen.Addr().Draw(t, "any")}
+		case 10, 11:
+			// Positional splice: every byte comes from one of two listed
+			// bases / well-known byte patterns at the SAME offset (a check that
+			// compares too few bytes, or bytes at the right offset of the
+			// wrong network, misclassifies such addresses), a few bytes are
+			// then randomised.
+			var pool [][16]byte
+			for _, n := range nets {
+				pool = append(pool, n.Addr().As16()) // IPv4 bases in their mapped form
+			}
+			for _, x := range []string{"::ffff:0:0", "::ffff:255.255.255.255", "ffff:ffff:ffff:ffff:ffff:ffff:ffff:ffff", "::", "0:0:0:0:ffff:ffff::", "64:ff9b:1:ffff:ffff:ffff:ffff:ffff"} {
+				pool = append(pool, netip.MustParseAddr(x).As16())
+			}
+			a, b := rapid.SampledFrom(pool).Draw(t, "a"), rapid.SampledFrom(pool).Draw(t, "b")
+			cut := rapid.IntRange(0, 16).Draw(t, "cut")
+			var out [16]byte
+			for i := range out {
+				switch rapid.IntRange(0, 2).Draw(t, "mode") {
+				case 0:
+					out[i] = a[i]
+				case 1:
+					out[i] = b[i]
+				default:
+					if i < cut {
+						out[i] = a[i]
+					} else {
+						out[i] = b[i]
+					}
+				}
+			}
+			for k := rapid.IntRange(0, 3).Draw(t, "noise"); k > 0; k-- {
+				out[rapid.IntRange(0, 15).Draw(t, "at")] = rapid.Byte().Draw(t, "byte")
+			}
+			return Case{Addr: netip.AddrFrom16(out)}
 		case 1, 2, 3, 4, 5:
 			// Copy the first k bits of a listed base, random rest.
 			n := rapid.SampledFrom(nets).Draw(t, "net")
